@@ -1,6 +1,6 @@
 /-
 C02: whole-stream refinement, the step: control relation (exit function, `ignoreST` vs the Spec's
-`afterString`/`fresh` with the recorded deviations F102/F102c switched on), the table-wide check
+`afterString`/`fresh` with the recorded deviation F102 switched on), the table-wide check
 `stepCheck` (kernel-decided for all states × control flags × runes), and the simulation of one
 step of the hand model by one step of the reference machine.
 -/
@@ -11,8 +11,9 @@ open VaxisModel.Model.ParserTable VaxisModel.Model.Parser
 open VaxisModel.Lemmas.ParserConform VaxisModel.Lemmas.ParserAbs VaxisModel.Lemmas.ParserRefine
 open VaxisModel.Spec.VT500 (S A M)
 
-/-- The recorded deviations F102 (lazy ST suppression) and F102c (a C0 in `ESC … \` drops it). -/
-def devAll : Spec.VT500.Dev := { lazyST := true, c0ClearsST := true }
+/-- The recorded deviation F102 (lazy ST suppression).  (F102c — a C0 in `ESC … \` dropped the
+    suppression — is repaired: `c0ClearsST` stays off.) -/
+def devAll : Spec.VT500.Dev := { lazyST := true }
 
 /-- Flags that hold in each state. -/
 def fl (st : StateId) : Fl :=
@@ -57,7 +58,7 @@ def ctlNext (st : StateId) (after fresh : Bool) (c : Nat) (st' : StateId) : Bool
   let inStr := Spec.VT500.isString (toS st) && !(true && fresh)
   let after' :=
     if c = 0x1B then (inStr || (decide (toS st = .escape) && after))
-    else if toS st' = .escape then (after && !true)
+    else if toS st' = .escape then (after && !false)
     else false
   (after', decide (toS st' ≠ toS st))
 
@@ -86,7 +87,7 @@ def stepCheck (st : StateId) (after fresh : Bool) (c : Nat) : Bool :=
         match absI st c r2.1 v1 e1 g1 with
         | none => false
         | some (v2, e2, g2) =>
-          okTarget st after fresh c v2 e2 (if (handFn st).pre.contains .deferClearIgnoreST then false else g2) r2.2
+          okTarget st after fresh c v2 e2 (if r2.1.contains .deferClearIgnoreST then false else g2) r2.2
     | n => okTarget st after fresh c v1 e1 g1 n
 
 theorem stepCheck_below :
